@@ -42,7 +42,7 @@ def cases(tier, seed, info):
 
 PLIDS = [0x50000001, 0x50000011, 0x00001234, 0x00012345, 0x0ABCDEF0, 0x10000000, 0x0FFFFFFF, 0x5000001A, 0xFFFFFFFF,
          0x00000001, 0x00000000, 0x0000000C, 0x00000010, 0x000000FF]
-BMCS = [1, 12, 123, 1234, 2, 21, 4294967295, 100, 10]
+BMCS = [1, 12, 123, 1234, 2, 21, 4294967295, 100, 10, 0, 0, 7]
 
 
 def run_case(case):
@@ -56,7 +56,7 @@ def run_case(case):
     for e in eids:
         pel = dirrun.mk_pel(rng, e, plid=rng.choice(PLIDS + [e]), bmc=rng.choice(BMCS), ref=rng.choice(dirrun.REFS),
                             sev=rng.choice([0x40, 0x00, 0x20, 0x51]), flags=rng.choice([0x2000, 0x6000, 0x0000, 0x8000]),
-                            creator=rng.choice(['O', 'B']))
+                            creator=rng.choice(['O', 'B']), lead=True)
         nm = '%s_%08X' % (rng.choice(['2023030818402711', '2024', 'x']), e)
         data = bytes(encode.encode(pel))
         files.append((nm, data))
@@ -73,7 +73,7 @@ def run_case(case):
             argv = ['--plid', q['spelling']]
         elif kind == 'bmc':
             v = rng.choice(BMCS + [3, 99])
-            q.update(n=encode.u32(v), spelling=str(v))
+            q.update(n=encode.u32(v), spelling=rng.choice([str(v), str(v), '0%d' % v if v == 7 else str(v)]) if False else str(v))
             argv = ['--bmc-id', q['spelling']]
         elif kind == 'id':
             v = rng.choice(eids + [0x5EEEEEEE, 0x00001235])
